@@ -6,6 +6,7 @@ commands, so that a run under real bash logs exactly the external programs execu
 """
 from __future__ import annotations
 
+import itertools
 import random
 
 from . import bashgen as bg
@@ -185,6 +186,9 @@ CD_LOOPS = [("while {A}; do {B}; done", ["cd sub", "cd sub && false", "cd nosuch
 CD_A = ["cd sub", "cd sub && false", "cd sub || true", "cd nosuch", "cd sub; false", "! cd sub", "cd sub > /dev/null", "X=1 cd sub", "pushd sub",
         "cd ./sub/", "cd sub/../sub", "cd sub && cd ..", "cd sub; cd sub", "cd -- sub", "cd -P sub", 'cd "$PWD"/sub', "cd $(echo sub)", "cd sub/.. && cd sub",
         "cd /", "cd .", "cd", "cd -", "cd sub && cd -", "cd ~-", "cd ~+", "cd - > /dev/null", "builtin cd sub", "command cd sub", "eval cd sub", "test -d sub && cd sub", "cd sub 2> /dev/null || exit 1"]
+# every chain of two and three directory changes over { sub, .., - } (OLDPWD is the directory the LAST cd left)
+CD_A += [" && ".join("cd " + t for t in ch) for n in (2, 3) for ch in itertools.product(["sub", "..", "-"], repeat=n)]
+CD_A = list(dict.fromkeys(CD_A))
 CD_B = ["ls > only/g", "ls > deep/g", "ls >> ./only/g", "cat f > deep/../deep/g"]
 
 
